@@ -1,9 +1,12 @@
 import os, sys
 sys.path.insert(0, os.path.dirname(os.path.dirname(os.path.abspath(__file__))))
+from srcgen import regen_src  # pre-build generator: pure Go functions -> Gen/SrcPure.v
+sys.path.insert(0, os.path.dirname(os.path.dirname(os.path.abspath(__file__))))
 import coqreplay as _coqreplay
 
 PROP = {
-    "coq": ["C02", "Findings"],
+    "coq": ["C02", "Findings", "C02s"],
+    "pre": [regen_src],
     "extra": [_coqreplay.replay_cc],
     "exhaustive": False,
     "rule": "For generated valid requests of all 30 calls (MBAP and RTU framing): the valid reply, the valid reply plus trailing "
@@ -14,7 +17,7 @@ PROP = {
     "assumptions": ["the scripted connection delivers the scripted bytes in order and reports a deadline error once they are used up"],
 }
 CLAIM = {
-  "text": "Coq theorems over the client model, for EVERY request and EVERY byte stream the peer may send (both framings): soundness (success only if the stream contains, at a frame boundary after skippable frames (MBAP) / at its start (RTU), a well-formed reply answering this very request - unit, function code, byte count, length, echoed fields - and the result is exactly the requested number of values decoded under the configured byte/word order), completeness (every valid reply is accepted whatever follows), exception replies from the addressed unit or unit 255 give the error of their code for all 256 codes, a normal reply from another unit is refused, and no stream causes a panic or a non-terminating receive loop. The model is compared with the real client on valid replies, field-level corruptions, all exception codes, all function codes, truncations, foreign frames and random bytes on every run.",
+  "text": "Source level (C02s): the RTU length-inference table expectedResponseLenth (all 2^16 inputs) and mapExceptionCodeToError (all 256 codes) are translated from the Go source on every run (harness/cmd/gosrc -> Gen/SrcPure.v) and proved equal to the model by complete sweeps through the GoLite semantics. Coq theorems over the client model, for EVERY request and EVERY byte stream the peer may send (both framings): soundness (success only if the stream contains, at a frame boundary after skippable frames (MBAP) / at its start (RTU), a well-formed reply answering this very request - unit, function code, byte count, length, echoed fields - and the result is exactly the requested number of values decoded under the configured byte/word order), completeness (every valid reply is accepted whatever follows), exception replies from the addressed unit or unit 255 give the error of their code for all 256 codes, a normal reply from another unit is refused, and no stream causes a panic or a non-terminating receive loop. The model is compared with the real client on valid replies, field-level corruptions, all exception codes, all function codes, truncations, foreign frames and random bytes on every run.",
   "note": "Model follows the tree with fixes F1/F2 applied. Timeouts are untimed here (peer bytes exhausted = deadline error; the timed model is C07). Trusted: kernel, extraction, harness, scripted connection.",
-  "technique": "Coq proof (frame reader characterisation both directions, skip-loop fuel, per-operation validation lemmas) + differential correspondence on scripted replies",
+  "technique": "Coq proof over Go source functions translated on every run (GoLite deep embedding) + Coq proof (frame reader characterisation both directions, skip-loop fuel, per-operation validation lemmas) + differential correspondence on scripted replies",
 }
